@@ -91,6 +91,53 @@ try:
                           "the list written was not the merge with what is on disk under the lock",
                     input="A: _save_pack_names; B: complete commit just before A's lock_names() returns",
                     observed="missing %r, pack-names %r" % (missing, fresh._pack_collection.names()))
+    # a reload in between: P1 re-reads pack-names (taking its lock), then P2 packs everything just before P1 saves. The list P1
+    # writes must be the merge against what P1 last READ, so the packs P2 retired are not written back
+    rd2 = os.path.join(base, "repo2"); os.mkdir(rd2)
+    fmt.initialize(rd2).create_repository(shared=True)
+    trees = {}
+    for n in ("a", "b"):
+        br = controldir.ControlDir.create_branch_convenience(os.path.join(rd2, n), force_new_tree=True, format=fmt)
+        trees[n] = br.controldir.open_workingtree()
+        open(os.path.join(rd2, n, "f" + n), "w").write(n + " one\n"); trees[n].add(["f" + n])
+    ra1 = trees["a"].commit("a1", committer="t <t@e.x>")
+    rb1 = trees["b"].commit("b1", committer="t <t@e.x>")
+    packs_a = trees["a"].branch.repository._pack_collection
+    orig_save, st_ = packs_a._save_pack_names, {"packed": False}
+
+    def save_after_concurrent_pack(*a_, **kw_):
+        if not st_["packed"]:
+            st_["packed"] = True
+            other = Repository.open(rd2)
+            with other.lock_write():
+                other.pack()
+        return orig_save(*a_, **kw_)
+    packs_a._save_pack_names = save_after_concurrent_pack
+    try:
+        open(os.path.join(rd2, "a", "fa"), "w").write("a two\n")
+        ra2 = trees["a"].commit("a2", committer="t <t@e.x>")
+    finally:
+        del packs_a._save_pack_names
+    tried += 1
+    reader = Repository.open(rd2)
+    with reader.lock_read():
+        listed = sorted(reader._pack_collection.names())
+    on_disk = sorted(os.path.splitext(n_)[0] for n_ in os.listdir(os.path.join(rd2, ".bzr", "repository", "packs")))
+    ghosts = [n_ for n_ in listed if n_ not in on_disk]
+    problem = None
+    if ghosts:
+        problem = "pack-names lists pack(s) %r that another process had already retired (their files are in obsolete_packs)" % ghosts
+    else:
+        try:
+            with reader.lock_read():
+                for r_ in (ra1, rb1, ra2):
+                    reader.get_revision(r_)
+        except Exception as e:  # noqa
+            problem = "a revision is no longer readable: %s" % e
+    if problem:
+        verdict(True, "after a reload the next save did not merge against what was last read: " + problem,
+                input="P1 commits a1; P2 commits b1; P1 starts a2 (reloads pack-names); P2 packs; P1 saves pack-names",
+                observed="listed %r, in packs/ %r" % (listed, on_disk))
 finally:
     shutil.rmtree(base, ignore_errors=True)
 verdict(False, "no failing input among %d" % tried)
